@@ -55,6 +55,111 @@ def gen_lines(rng, tier):
     return out
 
 
+def _splits(rng, n, bs):
+    """structured chunkings of a message of n bytes: lists of chunk lengths (sum = n)"""
+    out = [[n]]
+    if n >= 1:
+        out.append([1, n - 1])
+        out.append([n - 1, 1])
+    if 1 < n <= 3 * bs // 2:
+        out.append(_small(n))                                # byte at a time (the oracle takes at most 64 tokens per line: 1- to 4-byte chunks)
+    for cut in (bs - 1, bs, bs + 1, 2 * bs):                   # a chunk ending just before / at / after a block boundary
+        if 0 < cut < n:
+            out.append([cut, n - cut])
+    if n > 2:
+        a = 1 + rng.below(n - 1)
+        b = a + rng.below(n - a)
+        out.append([a, b - a, n - b])                        # random three-way split (may contain an empty chunk)
+    out.append([0, n])
+    out.append([n, 0])
+    if n > 4:
+        out.append([n // 3, 0, 0, n - n // 3])
+    return out
+
+
+def _small(n):
+    c = (n + 55) // 56
+    return [c] * (n // c) + ([n % c] if n % c else [])
+
+
+def _toks(msg, lens):
+    t, o = [], 0
+    for l in lens:
+        t.append(hexs(msg[o:o + l]))
+        o += l
+    return t
+
+
+def gen_stream_lines(rng, tier):
+    """the incremental APIs: SHA*Reset/Input/Result and blake2s_init[_key]/update/final with structured chunkings"""
+    q = tier == "quick"
+    out = []
+    for alg, bs, lb in (("sh224", 64, 8), ("sh256", 64, 8), ("sh384", 128, 16), ("sh512", 128, 16)):
+        pb = bs - lb                                          # first length whose padding needs an extra block is pb
+        lens = [0, 1, 2, pb - 2, pb - 1, pb, pb + 1, bs - 2, bs - 1, bs, bs + 1, bs + pb - 1, bs + pb, bs + pb + 1, 2 * bs - 1, 2 * bs,
+                2 * bs + 1, 3 * bs + 5, 4 * bs]
+        if not q:
+            lens += list(range(3, bs + 20)) + [5 * bs + rng.below(bs) for _ in range(10)]
+        for n in lens:
+            msg = rng.bytes(n)
+            sp = _splits(rng, n, bs)
+            if q:
+                sp = [sp[0]] + [sp[1 + rng.below(len(sp) - 1)] for _ in range(2)] + ([_small(n)] if n in (pb, bs, bs + 1) else [])
+            for lens_ in sp:
+                out.append("md_stream %s %s" % (alg, " ".join(_toks(msg, lens_))))
+        # chunks longer than one / two blocks inside a longer message, block-aligned and not
+        for lens_ in ([2 * bs + 3, bs - 3], [3, 2 * bs, bs - 3], [bs, bs, bs], [bs // 2, bs // 2, bs // 2, bs // 2 + pb]):
+            msg = rng.bytes(sum(lens_))
+            out.append("md_stream %s %s" % (alg, " ".join(_toks(msg, lens_))))
+        # Result in between: twice (same digest), then empty Input (allowed), then data (state error), Result first
+        m = rng.bytes(pb + 3)
+        for pat in (["="], [hexs(m), "="], [hexs(m), "=", "."], [hexs(m), "=", "00"], [hexs(m[:5]), "=", hexs(m[5:])], ["=", hexs(m)],
+                    ["=", ".", "="], [hexs(m), "=", "00", "="], [".", "=", "."]):
+            out.append("md_stream %s %s" % (alg, " ".join(pat)))
+        out.append("md_stream %s" % alg)                       # no Input call at all
+    # BLAKE2s
+    for ol in ([1, 20, 32] if q else [1, 2, 16, 20, 28, 31, 32]):
+        for kl in ([0, 1, 32] if q else [0, 1, 16, 31, 32]):
+            key = rng.bytes(kl)
+            lens = [0, 1, 63, 64, 65, 127, 128, 129, 192, 193, 300]
+            if not q:
+                lens += list(range(2, 63, 3)) + [256, 257, 500]
+            for n in lens:
+                msg = rng.bytes(n)
+                sp = _splits(rng, n, 64)
+                if q:
+                    sp = [sp[0], sp[1 + rng.below(len(sp) - 1)]]
+                for lens_ in sp:
+                    out.append("b2s_stream %d %s %s" % (ol, hexs(key), " ".join(_toks(msg, lens_))))
+                out.append("b2s %d %s %s" % (ol, hexs(key), hexs(msg)))
+    # the fill logic of blake2s_update: left + inlen below / at / just above the block, and the direct-from-input loop bounds
+    for left in (0, 1, 10, 63, 64):
+        fill = 64 - left
+        for inl in sorted({1, fill - 1, fill, fill + 1, fill + 63, fill + 64, fill + 65, fill + 128, fill + 129}):
+            if inl <= 0:
+                continue
+            for tail in (0, 1):
+                lens_ = ([left] if left else []) + [inl] + ([tail] if tail else [])
+                msg = rng.bytes(sum(lens_))
+                out.append("b2s_stream 32 . %s" % " ".join(_toks(msg, lens_)))
+    m = rng.bytes(70)
+    for pat in (["="], [hexs(m), "="], [hexs(m), "=", "."], [hexs(m), "=", "00"], ["=", hexs(m)]):
+        out.append("b2s_stream 32 . %s" % " ".join(pat))
+        out.append("b2s_stream 20 %s %s" % (hexs(rng.bytes(16)), " ".join(pat)))
+    out.append("b2s_stream 32 .")
+    out.append("b2s_stream 32 %s" % hexs(rng.bytes(32)))
+    # rejected parameters: outlen 0 / 33, key of 33 bytes
+    for ol, kl in ((0, 0), (33, 0), (0, 16), (33, 16), (32, 33), (16, 40)):
+        out.append("b2s_stream %d %s %s" % (ol, hexs(rng.bytes(kl)), hexs(rng.bytes(5))))
+        out.append("b2s %d %s %s" % (ol, hexs(rng.bytes(kl)), hexs(rng.bytes(5))))
+    # the carry t[0] -> t[1] of blake2s_increment_counter (state preset below the 2^32 boundary)
+    for t0, t1 in ((0xffffffc0, 0), (0xffffff80, 0), (0xffffffc0, 0xffffffff), (0xffffffff, 5), (0xffffffc1, 1), (0x10, 7), (0, 0)):
+        for lens_ in ([10], [64], [65], [64, 64, 1], [200], [63, 1, 1]):
+            msg = rng.bytes(sum(lens_))
+            out.append("b2s_ctr 32 %x %x %s" % (t0, t1, " ".join(_toks(msg, lens_))))
+    return out
+
+
 def gen_dec_lines(rng, tier, enc_pairs):
     """second pass: decrypt honest ciphertexts, corrupted ones, wrong lengths"""
     out = []
@@ -96,6 +201,7 @@ def streams(ctx, scale=1):
     lines = ["cfg"] + CORPUS
     for _ in range(scale):
         lines += gen_lines(ctx.rng, ctx.tier)
+        lines += gen_stream_lines(ctx.rng, ctx.tier)
     # the decryption stream is derived from the implementation's own ciphertexts
     enc = [l for l in lines if l.startswith("aes_enc")]
     outs = check.run_oracle(exe, ["cfg"] + enc)[1:]
